@@ -687,10 +687,60 @@ def evaluate_invalid(label, texts, st=None):
 
 
 # ---------------------------------------------------------------------------------------------
+# extend_schema with a document that DEFINES new types and extends them in the same document: every order of
+# its definitions (extension blocks before the definition they extend included) gives the schema that
+# build_schema gives for the base followed by the definitions-first order
+
+LATE = [
+    ("object", ["type New { a: Int }", "extend type New { b: Int }", "extend type Query { n: New }"]),
+    ("enum", ["enum E { A }", "extend enum E { B }", "extend type Query { e(x: E = A): E }"]),
+    ("input", ["input In { a: Int }", "extend input In { b: Int = 2 }", "extend type Query { f(i: In): Int }"]),
+    ("interface", ["interface Ifc { a: Int }", "extend interface Ifc { b: Int }", "type Impl implements Ifc { a: Int b: Int }", "extend type Query { i: Ifc }"]),
+    ("union", ["type M1 { a: Int }", "union Un = M1", "extend union Un = Query", "extend type Query { u: Un }"]),
+    ("two-extensions", ["type New { a: Int }", "extend type New { b: Int }", "extend type New { c: Int }"]),
+    ("directive-use", ["directive @mark(on: Boolean = true) on OBJECT", "type New @mark { a: Int }", "extend type New { b: Int }"]),
+]
+
+
+def evaluate_late(name, defs, st=None):
+    import itertools
+
+    from py_gql import build_schema
+    from py_gql.sdl import extend_schema
+
+    out = []
+    for perm in itertools.permutations(range(len(defs))):
+        ordered = [defs[i] for i in perm]
+        text = "\n".join(ordered)
+        # the same blocks, definitions first, extension blocks in the SAME relative order (member order follows
+        # the order of the blocks, so that order is kept), built in one step
+        stable = [d for d in ordered if not d.startswith("extend")] + [d for d in ordered if d.startswith("extend")]
+        want, _bad = M.sm_from_schema(build_schema(Q + "\n".join(stable)))
+        if st is not None:
+            st.n("evaluations")
+            st.nt((name, perm))
+        try:
+            got, bad = M.sm_from_schema(extend_schema(build_schema(Q), text))
+        except Exception as e:  # noqa
+            tag = "lib" if isinstance(e, lib_errors()) else "other"
+            out.append(("late-definition:valid-rejected:%s:%s" % (tag, type(e).__name__), "extend_schema(build_schema(%r), %r) raised %s: %s" % (Q, text, type(e).__name__, str(e)[:200])))
+            break
+        d = M.sm_diff(want, got)
+        if d or bad:
+            out.append(("late-definition:content-differs:%s" % (d[0][0] if d else "identity"), "extend_schema(build_schema(%r), %r): %s %s" % (Q, text, d[:2], bad[:2])))
+            break
+        if st is not None:
+            st.outcome(("late", name))
+    return out
+
+
+# ---------------------------------------------------------------------------------------------
 # cases
 
 
 def cases(tier):
+    for name, defs in LATE:
+        yield {"kind": "late", "name": name, "defs": defs}
     b = BOUNDS[tier]
     for i, (label, texts) in enumerate(INVALID):
         yield {"kind": "invalid", "label": label, "texts": texts}
@@ -702,6 +752,8 @@ def cases(tier):
 
 
 def check_case(case, st):
+    if case["kind"] == "late":
+        return [(cls, {"kind": "late", "name": case["name"], "defs": case["defs"]}, d) for cls, d in evaluate_late(case["name"], case["defs"], st)]
     if case["kind"] == "invalid":
         return [(cls, {"kind": "invalid", "label": case["label"], "texts": case["texts"]}, d) for cls, d in evaluate_invalid(case["label"], case["texts"], st)]
     b = BOUNDS[case["tier"]]
@@ -724,6 +776,8 @@ def check_case(case, st):
 
 
 def replay(witness):
+    if witness["kind"] == "late":
+        return evaluate_late(witness["name"], witness["defs"], None)
     if witness["kind"] == "invalid":
         return evaluate_invalid(witness["label"], witness["texts"], None)
     base_classes = {r[0] for r in evaluate(witness["features"], BASELINE, None)}
